@@ -19,6 +19,7 @@ Open Scope nat_scope."""
 
 REL = 1e-9      # relative floor for "exact to rounding error"
 SLACK = 1e-8    # multiplicative slack of the two bounds
+TIMEOUT = 120   # seconds per implementation call (shared machine); a timeout is counted as skipped, never a verdict
 _np_svd = np.linalg.svd   # independent oracle for the predicates (never routed through tensorly)
 
 
@@ -238,16 +239,16 @@ def run_impl(kind, X, rank, extra):
     rank_arg = rank if isinstance(rank, int) else list(rank)   # fresh list: the code writes into it
     with Tape() as tp:
         if kind == "tt":
-            st, v = C.call_impl(lambda: [np.asarray(f) for f in tensor_train(X, rank_arg, **extra).factors])
+            st, v = C.call_impl(lambda: [np.asarray(f) for f in tensor_train(X, rank_arg, **extra).factors], timeout=TIMEOUT)
         elif kind == "ttm":
-            st, v = C.call_impl(lambda: [np.asarray(f) for f in tensor_train_matrix(X, rank_arg, **extra).factors])
+            st, v = C.call_impl(lambda: [np.asarray(f) for f in tensor_train_matrix(X, rank_arg, **extra).factors], timeout=TIMEOUT)
         elif kind == "tr":
-            st, v = C.call_impl(lambda: [np.asarray(f) for f in tensor_ring(X, rank_arg, **extra).factors])
+            st, v = C.call_impl(lambda: [np.asarray(f) for f in tensor_ring(X, rank_arg, **extra).factors], timeout=TIMEOUT)
         elif kind == "tucker":
             def f():
                 t = tucker(X, rank_arg, **extra)
                 return (np.asarray(t.core), [np.asarray(u) for u in t.factors])
-            st, v = C.call_impl(f)
+            st, v = C.call_impl(f, timeout=TIMEOUT)
         else:
             raise KeyError(kind)
     return st, v, tp.calls
@@ -500,6 +501,10 @@ def outcome_lit(kind, st, v):
     return "(OFactors [" + "; ".join(qt(f) for f in v) + "])"
 
 
+def timed_out(st, v):
+    return st == "crash" and v == "timeout"
+
+
 def finite(st, v, calls):
     arrs = []
     if st == "ok":
@@ -547,6 +552,9 @@ def run(chk):
         if X.size > 40:
             continue
         st, v, calls = run_impl(kind, X, rank, extra)
+        if timed_out(st, v):
+            chk.hist("skipped_timeout", kind)
+            continue
         if not finite(st, v, calls):
             chk.finding(EP[kind], describe(kind, X, rank, extra, info), "non-finite output or SVD query", "C09_finite")
             continue
@@ -580,6 +588,9 @@ def run(chk):
     for rep in range(extra_budget):
         for (kind, X, rank, extra, info) in gen_predicate_cases(tier, rng, nrng):
             st, v, calls = run_impl(kind, X, rank, extra)
+            if timed_out(st, v):
+                chk.hist("skipped_timeout", kind)
+                continue
             info = dict(info, valid=True)
             msg = predicate(kind, X, rank, extra, st, v, info)
             chk.count(key=("pred", kind, X.shape, str(rank), tuple(sorted(extra.items())), info["cls"]), nontrivial=X.size > 1)
@@ -616,6 +627,9 @@ def replay(payload):
     extra = dict(inp.get("options") or {})
     info = {"valid": True, "sufficient": bool(inp.get("sufficient_rank_requested"))}
     st, v, calls = run_impl(kind, X, rank, extra)
+    if timed_out(st, v):
+        print("replay: implementation call timed out (machine load); not a verdict")
+        return 0
     msg = None
     if not finite(st, v, calls):
         msg = "non-finite output or SVD query"
